@@ -18,6 +18,7 @@ CUSTOMS = [None, ".s", "s", "z", "xz", ".xz", "lzma", ".tlz"]
 UID, GID = 12345, 23456              # foreign owner of the sources (we run as root)
 AT_NS, MT_NS = 1_000_000_000_123_456_789, 1_234_567_890_987_654_321   # distinctive atime / mtime
 PLAIN = b"C19 payload: the quick brown fox jumps over the lazy dog\n" * 7
+PLAIN_ZT = (b"C19 data " * 1000)[:8192] + b"\0" * 16384
 RAWF = [{"id": lzma.FILTER_LZMA2, "preset": 6}]     # xz's default chain, needed to read/write --format=raw
 
 
@@ -330,11 +331,12 @@ def make_source(sd, kind, mode, name, content, uid=UID, gid=GID):
 
 def case_meta(c, xz, sd, res, verbose=False):
     kind, mode, flags, exist, dec = c["kind"], c["mode"], c["flags"], c["exist"], c["dec"]
+    P_ = PLAIN_ZT if c.get("zt") else PLAIN     # zt: data ending in two whole I/O buffers of zero bytes (the sparse-file path finishes the file with a seek + one-byte write)
     use_s = "-S" in flags
     name = ("f.foo" if use_s else "f.xz") if dec else "f"
     target = "f" if dec else ("f.foo" if use_s else "f.xz")
-    content = encode("xz", PLAIN) if dec else PLAIN
-    result = PLAIN if dec else None
+    content = encode("xz", P_) if dec else P_
+    result = P_ if dec else None
     argv = (["-d"] if dec else [])
     for f in flags:
         argv += ["--suffix=.foo"] if f == "-S" else [f]
@@ -401,7 +403,7 @@ def case_meta(c, xz, sd, res, verbose=False):
     if rc != 0:
         fail("cli:exit-status:processed", f"exit status {rc}, expected 0 (stderr: {err.decode(errors='replace').strip()[:200]})"); return
     if to_stdout:
-        if not (out == PLAIN if dec else decodes_to("xz", out, PLAIN)):
+        if not (out == P_ if dec else decodes_to("xz", out, P_)):
             fail("cli:stdout-content", "standard output does not carry the expected data")
         if after != before:
             changed = sorted(k for k in set(before) | set(after) if before.get(k) != after.get(k))
@@ -413,7 +415,7 @@ def case_meta(c, xz, sd, res, verbose=False):
         fail("cli:no-target", f"no target file; files: {sorted(after)}"); return
     st = os.lstat(os.path.join(sd, target))
     body = read_file(os.path.join(sd, target)) if stat.S_ISREG(st.st_mode) else b""
-    if not stat.S_ISREG(st.st_mode) or not (body == PLAIN if dec else decodes_to("xz", body, PLAIN)):
+    if not stat.S_ISREG(st.st_mode) or not (body == P_ if dec else decodes_to("xz", body, P_)):
         fail("cli:target-content", "target is not a regular file with the expected data")
     tm = st.st_mode & 0o7777
     if tm & 0o7000:
@@ -648,6 +650,10 @@ def grid_meta(tier):
             for dec in (False, True):
                 for fl in ([], ["-k"], ["-f"], ["-c"]):
                     cases.append({"t": "meta", "kind": "regular", "mode": sp | p, "flags": fl, "exist": False, "dec": dec})
+    for m in (0o644, 0o600, 0o444):
+        for dec in (False, True):
+            for fl in ([], ["-k"], ["-f"], ["-k", "-f"]):
+                cases.append({"t": "meta", "kind": "regular", "mode": m, "flags": fl, "exist": False, "dec": dec, "zt": True})
     # B2 kind x flag product x pre-existing target
     if tier == "quick":
         kmodes = {"regular": [0o644, 0o600, 0o4755, 0o2711, 0o1666], "symlink": [0o644, 0o4755], "hardlink": [0o644, 0o2755],
